@@ -14,7 +14,7 @@ def _call(fn, *args):
     try:
         return ('ok', common.timed(fn, *args, seconds=5))
     except penman.DecodeError as e:
-        return ('DecodeError', e.lineno, e.offset)
+        return ('DecodeError', e.lineno, e.offset, e.text)
     except common.Timeout:
         return ('Timeout',)
     except Exception as e:       # noqa
